@@ -26,6 +26,14 @@ const REC_NAMES: [&str; 7] =
     ["Content-Length", "Content-Type", "Expect", "Transfer-Encoding", "Server", "Accept", "Accept-Encoding"];
 
 fn c15_value_for(s: &mut Src, name_idx: usize) -> String {
+    // list-valued headers with parameters and weights, built combinatorially
+    if s.chance(60) {
+        match name_idx {
+            1 | 5 => return weighted_list(s, &["text/plain", "application/json", "*/*", "text/html"], false),
+            6 => return weighted_list(s, &["gzip", "identity", "*", "deflate", "x-nonid"], false),
+            _ => {}
+        }
+    }
     let v: &[&str] = match name_idx {
         0 => &["0", "5", "007", "4294967295", "4294967296", "-1", "+5", "", "1 2", "\u{ff15}", "5;", "0x5", "99999999999999999999", "+", "-0", "1e3"],
         1 | 5 => &["application/json", "text/plain", "text/html", "Text/Plain", "", "application/json; charset=utf-8", "text/plain,application/json", "\u{a0}text/plain\u{a0}", "application/json2", "text/plain x", "application/json ;q=0", "x text/plain", "application/json\ttext/plain"],
